@@ -29,7 +29,8 @@ ROBUSTNESS AGAINST LOAD
   machine is measurably quiet: the driver times a 1 ms poll(2) before every configuration, and when the 95th percentile of
   that control wait's lateness exceeds NOISE_GATE_US the clauses oversleep_tight / second_oversleep_tight are dropped.
   The quick tier also bounds its own duration on a loaded machine: the driver starts no new configuration after
-  QUICK_WALL_S seconds (the configurations are ordered core first) and the engine says how many were measured.
+  QUICK_WALL_S seconds (the configurations are ordered core first) and no re-measurement round after QUICK_DEADLINE_S;
+  the engine says how many configurations were measured and how many overshoots were left undecided (never a verdict).
 
 quick: TLC on timeout_q.cfg + a representative subset of the configurations (nominal waiting time <= QUICK_BUDGET_S).
 thorough: + TLC on timeout_t.cfg + the variant cfgs + ALL replayable configurations, and all of them once more at a second
@@ -50,6 +51,7 @@ RETRIES = 3                    # re-measurements of a configuration that oversho
 RETRIES_TIGHT = 5              # ... of one that only overshoots W + Tight
 NOISE_GATE_US = 5000           # the 20 ms bound is only judged in a batch whose control waits (1 ms poll(2) by the same thread,
                                # one per configuration) wake up less than this late at the 95th percentile
+QUICK_DEADLINE_S = 48.0        # quick tier: no re-measurement round starts after this much time since the engine began
 QUICK_WALL_S = 30.0            # quick tier: the driver starts no new configuration after this much wall-clock time
 GUARD_US = 1500000
 QUICK_BUDGET_S = 27.0          # nominal waiting time of the quick subset (sum of W + W2), plus ~3 ms overhead each
@@ -270,7 +272,7 @@ def write_replay(scn_obj, measurements, viols, decided):
     return path
 
 
-def judge(scns, work, tag, res, measure=None, retries=RETRIES, retries_tight=None, allow_prefix=False, max_wall_s=None):
+def judge(scns, work, tag, res, measure=None, retries=RETRIES, retries_tight=None, allow_prefix=False, max_wall_s=None, deadline=None):
     """measure the scenarios (serially), validate with TLC, re-measure the ones that only show load-sensitive clauses;
     appends violations to res; returns statistics.  `measure(scns, tag) -> trace path` can be injected (selftest)."""
     measure = measure or (lambda ss, t, wall=None: run_driver(ss, work, t, wall))
@@ -296,6 +298,11 @@ def judge(scns, work, tag, res, measure=None, retries=RETRIES, retries_tight=Non
     pending = [sid for sid, vs in per.items() if {v["c"] for v in vs} <= LOAD_SENSITIVE]
     for attempt in range(1, max(retries, retries_tight) + 1):
         if not pending:
+            break
+        if deadline and time.time() > deadline:       # (quick tier on an overloaded machine: bounded duration, no verdict)
+            res.notes.append("%d configuration(s) left UNDECIDED at the tier's time budget: an upper-bound clause in each of the %d "
+                             "measurement(s) taken, fewer than the %d needed for a verdict: %s" % (
+                                 len(pending), attempt, retries + 1, "; ".join(pending[:4])))
             break
         time.sleep(min(1.0 * attempt, 4.0))          # let a burst of load pass
         again = [byid[sid] for sid in pending]
@@ -325,6 +332,8 @@ def judge(scns, work, tag, res, measure=None, retries=RETRIES, retries_tight=Non
         elif flagged == len(hist) and len(hist) >= retries + 1:      # (re-measuring only stops early after a clean measurement)
             decided = "an upper-bound clause in every one of %d measurements" % len(hist)
         else:
+            if flagged == len(hist):
+                continue                                   # undecided at the time budget (noted above): neither cleared nor reported
             stats["cleared"] += 1
             cleared.append("%s: %s in %d of %d measurements" % (sid, ",".join(sorted({c for cs in sets for c in cs})), flagged, len(hist)))
             continue
@@ -347,6 +356,7 @@ def engine(prop, tier, seed, work):
     assert prop == PROP
     res = check.Result()
     quick = tier == "quick"
+    began = time.time()
 
     # 1. exhaustive: code-shaped dispatch = oracle, for every configuration; the same run exports the scenario list
     r = run_model("mc/timeout_q.cfg", work, res, workers=4, timeout=300)
@@ -369,7 +379,8 @@ def engine(prop, tier, seed, work):
         todo = list(replayable)
         random.Random(seed).shuffle(todo)
     t0 = time.time()
-    stats = judge(todo, work, "cfg", res, allow_prefix=quick, max_wall_s=QUICK_WALL_S if quick else None)
+    stats = judge(todo, work, "cfg", res, allow_prefix=quick, max_wall_s=QUICK_WALL_S if quick else None,
+                  deadline=began + QUICK_DEADLINE_S if quick else None)
     if stats["measured"] < len(todo):
         res.notes.append("the machine is loaded: the driver reached its wall-clock budget (%.0f s) after %d of the %d configurations "
                          "of the quick subset" % (QUICK_WALL_S, stats["measured"], len(todo)))
